@@ -80,3 +80,23 @@ reg("C14",
     "matrices and the network cross-module identity are compared with exact references (1e-9) for arbitrary "
     "topology name lists. " + EXPL,
     "inversion required only under the statement's precondition; cross-module identity on clique/cycle motifs")
+
+reg("C09",
+    "property-based testing (Hypothesis) + exhaustive graph-atlas family with the complete tie-break decision tree enumerated (scripted RNG); validity-predicate oracle",
+    "Exact-cover (each input edge in exactly one element), size bound, clique-ness, empty working graph and the "
+    "intact-maximal-clique clause are asserted for generated graphs x m0 x tie-break schedules, and for every atlas "
+    "graph in range under every tie-break outcome (trees <= 200 leaves). " + EXPL,
+    "tie-breaks are assumed to come from the stdlib random instance's integer source")
+
+reg("C10",
+    "property-based testing (Hypothesis) over graphs and cover/mutate/cover histories + atlas enumeration; label-partition and greedy-maximal predicates",
+    "Unchanged node/edge sets, label format, label = all member pairs, size limit, id uniqueness and greedy "
+    "maximality against nx.enumerate_all_cliques are asserted after every MPCC call of a generated history on one "
+    "graph object (relabelled ids, random insertion order, seeded/scripted shuffle). " + EXPL,
+    "non-negative integer node ids")
+
+reg("C18",
+    "property-based testing (Hypothesis) over percolate/rewire histories with exact oracles at phi in {0,1}; seeded chi-square for the Binomial law on stars",
+    "Untouched input (nodes, edges and their data), lattice/bounds for all phi, exact values at phi=0 and phi=1 after "
+    "in-place rewirings of the same graph object, and the Binomial(M,phi) law on stars (p<1e-9). " + EXPL,
+    "distributional clause is statistical")
